@@ -655,6 +655,12 @@ class Producer(object):
                 failure = result
                 result = failure.value.args[0]
                 failed_payloads = failure.value.args[1]
+                if self.req_acks == PRODUCER_ACK_NOT_REQUIRED:
+                    # No responses will ever arrive: every payload that is
+                    # not reported as failed was written, so it is done.
+                    for t_and_p, p in payloadsByTopicPart.items():
+                        if not any(p == fp for fp, f in failed_payloads):
+                            _deliver_result(deferredsByTopicPart[t_and_p], None)
 
         # Do we have results? Iterate over them and if the response indicates
         # success, then callback the associated deferred. If the response
